@@ -1427,3 +1427,16 @@ package gojq
 //@   requires inD(a) && inD(b)
 //@   use cmpv_antisym(a, b)
 //@   ensures cmpv(a, b) <= 0 || cmpv(b, a) <= 0
+
+// ---------------------------------------------------------------------------------------
+// C02: a write through a slice path stays inside the window of the slice. updateArraySlice hands the
+// window v[start:end] down to update, which may extend an array the update owns in place into its spare
+// capacity (updateArrayIndex; the allocator recognises an array by its first element, so a sub-slice that
+// starts the array counts as owned). The sub-slice must therefore not carry capacity that overlaps the
+// elements of v behind the window.
+// ---------------------------------------------------------------------------------------
+//@ func updateArraySlice(v []any, m map[string]any, path []any, n any, a allocator) (r any, err error)
+//@   property C02
+//@   flag nosafety
+//@   modifies *
+//@   call update requires (arg0 is []any) && owned(v) && start == 0 && end < len(v) ==> cap(arg0.([]any)) == len(arg0.([]any))
